@@ -17,6 +17,14 @@ from ..hirq import walk, kind, callee, where, peel
 from ..terms import TemplateFront, HirFront, norm, law_l3, ctx_erase, show
 
 LEVEL = "translation_validation"
+
+# For Unicode property built-ins the two back-ends take different routes to the tables: generated code calls the function
+# `pest::unicode::NAME`, the VM asks `unicode::by_name(NAME)`. That both give the same set is C16's agreement of the access
+# paths (names x tables x lookup), re-run here.
+DEPENDS = [
+    ("C16", {"only_rules": ["NAMES", "LOOKUP", "ACCESS"],
+             "why": "generated code and VM reach the Unicode tables through different access paths"}),
+]
 OEXPR = "pest_meta::optimizer::OptimizedExpr"
 RTYPE = "pest_meta::ast::RuleType"
 GEN = "pest_generator::generator"
